@@ -1030,6 +1030,7 @@ def run(prop, tier):
         n_checked += 1
         if again.get("digest") != r["digest"]:
             raise HarnessError("determinism self-test failed: run %d gave digest %s then %s" % (r["run"], r["digest"], again.get("digest")))
+    hubutil.dump_digests(prop, [(r["run"], r["digest"]) for r in results])
     stats, matrix = {}, {}
     for r in results:
         hubutil.merge_counts(stats, r["stats"])
